@@ -167,7 +167,9 @@ AlWordAt(j) ==
       k    == IF w < 6 THEN w ELSE IF w < 42 THEN w - 6 ELSE w - 42
       al   == [i \in 1..len |-> AlSigma[1 + ((k \div (6 ^ (len - i))) % 6)]]
       base == Default(kind, <<12, j % 7>>)
-  IN  Item("accesslist_words", MkDoc([base EXCEPT !["accessList"] = AlNode(al)]), j)
+      \* the recipient is one of the listed addresses, absent, or unrelated: the access list is data, whatever `to` is
+      to   == IF (w + j) % 4 = 0 THEN NHexBytes(AlA) ELSE IF (w + j) % 4 = 1 THEN NHexBytes(AlB) ELSE IF (w + j) % 4 = 2 THEN Absent ELSE base["to"]
+  IN  Item("accesslist_words", MkDoc([base EXCEPT !["accessList"] = AlNode(al), !["to"] = to]), j)
 
 \* ---- E: chain ids x nonces (to see both parities with a chain id) ----------
 ChainIds == <<<<>>, <<1>>, <<255>>, <<1, 0, 0, 0, 0>>, Rep(8, 255), Prng(K("bigchain", <<>>), 31),
